@@ -67,6 +67,7 @@ func (c *GenerateCommand) execute(tow io.Writer) (err error) {
 	if c.Fill {
 		rnd := rand.New(rand.NewSource(newRandSeed()))
 		now := whispertool.TimestampFromStdTime(time.Now())
+		now = verifNow(now)
 		until := now
 		ptsList = randomPointsList(c.ArchiveInfoList, rnd, c.RandMax, until, now)
 		if err := updateFileDataWithPointsList(db, ptsList, now); err != nil {
